@@ -115,7 +115,8 @@ PROPS = {
                    "path does the same, and that each chance infoset / opponent infoset draws at most once per pass and is re-armed by "
                    "reset()/advance().",
         level_note="Schedules and the uniqueness of the visit behind try_lock().unwrap() are NOT decided.",
-        verus=[U("c06_threshold_player_step", ["C06.V.thread_threshold.frontier_reach", "C06.V.thread_threshold.frontier_reach_chance"]),
+        verus=[U("c08_update_cum_strat", ["C08.V.update_cum_strat.external (the sampled player's average strategy is updated at every visit, also when its action was drawn while the frontier was built)"]),
+               U("c06_threshold_player_step", ["C06.V.thread_threshold.frontier_reach", "C06.V.thread_threshold.frontier_reach_chance"]),
                U("c07_external_fresh", ["C07.V.single_player_iter.workspace_fresh", "C07.V.solve_external_multi.workspace_fresh"]),
                U("c06_generic_multi_fresh", ["C06.V.solve_generic_multi.workspace_fresh"]),
                U("c05_into_avg_strat", ["C05.V.into_avg_strat.normalised (the multi-threaded extraction uses the same normalisation)"]),
@@ -330,7 +331,8 @@ PROPS = {
                U("c11_init_recurse", ["C11.V.init_recurse.single_action_recorded_once (the table of single-action infosets both importers check coverage against lists each such infoset once)"]),
                U("c14_hash_validate", ["C14.V.hash_import.rejects_bad_weight", "C14.V.hash_import.rejects_unknown_action", "C14.V.hash_import.stores_weight",
                                        "C14.V.hash_import.single_rejects_other_action", "C14.V.hash_import.single_rejects_bad_weight", "C14.V.hash_import.single_marks_seen",
-                                       "C14.V.hash_import.dense_index"])],
+                                       "C14.V.hash_import.dense_index",
+                                       "C14.V.scan_import.rejects_bad_weight", "C14.V.scan_import.rejects_unknown_action", "C14.V.scan_import.stores_weight"])],
         kani_functions=["src/lib.rs :: impl Game / fn strat_into_box_slow"],
         trusted_base=["assumed contracts on std::borrow::Borrow, HashMap::{get, insert}, Clone of user key types (c14_hash_validate)"],
         not_decided=["strat_into_box (hash path) beyond its per-entry validation kernel and index assignment: which infoset table an entry is looked up in, the all-singles-seen check, and the agreement of the two paths", "exact normalised values"],
